@@ -17,9 +17,12 @@ f) reads merge in-flight segments into their scan list, so a segment's files can
    (table frozen from the triage of the defect, one line per file; the strict loaders - bincode / count-prefixed - reject a partial file and are not listed)
 g) after a restart the live segment list is the list of PUBLISHED segments: ShardContext::new must build it from (or intersect it with) segments.idx - a numeric directory that is not in the index is
    an unfinished flush or a compaction output whose hand-over never happened, and naming it in the live list makes reads open incomplete files.
+h) reads scan published segments only: the scan list must not contain in-flight (unpublished) segments - their files are still being written (the .zones file exists before the column files and the
+   .idx), so a read sees half-written rows that carry real event ids and win the de-duplication against the intact copy in the passive buffer. The passive buffer is released only after publication
+   (C03.c), so the in-flight merge adds nothing to completeness.
 """
-FLOOR = 11
-REQUIRED = ["C11.a", "C11.b", "C11.c", "C11.f", "C11.g", "C11/C01.g", "C11/C03.c", "C11/C05.b1", "C11/C05.b2", "C11/C05.d", "C11/C05.e"]
+FLOOR = 12
+REQUIRED = ["C11.a", "C11.b", "C11.c", "C11.f", "C11.g", "C11.h", "C11/C01.g", "C11/C03.c", "C11/C05.b1", "C11/C05.b2", "C11/C05.d", "C11/C05.e"]
 
 SEGMOD = re.compile(r"^(engine::core::(column|filter|read::catalog|time|zone|snapshot|write)::|shared::storage_header::)")
 WRITER_ROOTS = {"engine::core::write::flusher::Flusher::flush", "engine::core::compaction::multi_uid_compactor::MultiUidCompactor::run",
@@ -182,6 +185,21 @@ def run(ctx):
             return [("live-list-from-directory-listing", "ShardContext::new takes every numeric directory under the shard as a live segment (SegmentIdLoader::load lists the directory and never consults segments.idx): after a crash the live list names unpublished, incomplete directories", None)]
         return []
     ctx.run("C11.g", "K10 READS", "ShardContext::new / SegmentIdLoader::load", "the live segment list after a restart names published segments only", g_)
+
+    def h_(inst):
+        cg = CallGraph(F)
+        roots = [k for k in cg.nodes if norm_path(k).startswith("engine::query::scan::scan")]
+        if not roots:
+            raise AnchorMissing("engine::query::scan::scan")
+        seen = cg.reachable(roots)
+        infl = "engine::core::segment::inflight::InflightSegments::snapshot"
+        if infl not in cg.nodes or infl not in seen:
+            inst.sites.append("in-flight segments are not merged into the scan list")
+            return []
+        chain = cg.chain(seen, infl)
+        inst.sites.append(" -> ".join(norm_path(x).split("::")[-2] + "::" + norm_path(x).split("::")[-1] for x in chain[-4:]))
+        return [("in-flight-segments-scanned", "reads merge in-flight (unpublished) segments into their scan list (%s): files still being written are read" % norm_path(chain[-2]).split("::")[-2:], chain)]
+    ctx.run("C11.h", "K4 REACH", "engine::query::scan -> InflightSegments::snapshot", "a read scans published segments only", h_)
 
 
 def cmp_count(fam):
